@@ -644,8 +644,8 @@ def call_ext(interp, ext, node, args, kwargs, st):
             return fresh(D0)
         if name in ("where",):
             if len(args) == 1:
-                return Val(kind="tuple", elem=Val(dim=D0, kind="idx", deps=deps, born=t, tags=frozenset(["1d"])), dim=D0,
-                           deps=deps, pdeps=pdeps, born=t)
+                return Val(kind="tuple", elem=Val(dim=D0, kind="idx", deps=deps, born=t, tags=frozenset(["1d", "where-index"])), dim=D0,
+                           deps=deps, pdeps=pdeps, born=t, tags=frozenset(["where"]))
             b, c = args[1], args[2] if len(args) > 2 else Val()
             d = interp._unify_additive(b, c, st, node, "where")
             return fresh(d, tags=b.tags & c.tags)
@@ -804,14 +804,14 @@ def _is_2pi(v):
 
 
 def _opaque(fn, v):
-    key = ",".join(sorted(f"{o}.{a}" for o, a in v.deps)) or "?"
+    key = ",".join(sorted(f"{o}.{a}" for o, a in v.deps if o != "call")) or "?"
     return Poly.atom(f"{fn}<{key}>")
 
 
 def _opaque_call(fn, args):
     parts = []
     for a in args:
-        parts.append(repr(a.sym) if a.sym is not None else ",".join(sorted(f"{o}.{x}" for o, x in a.deps)))
+        parts.append(repr(a.sym) if a.sym is not None else ",".join(sorted(f"{o}.{x}" for o, x in a.deps if o != "call")))
     return Poly.atom(f"{fn}<{';'.join(parts)}>")
 
 
@@ -887,7 +887,8 @@ def _builtin(interp, name, node, args, kwargs, st, fresh, deps, pdeps):
         if a0 is None:
             return vconst(0)
         return Val(dim=a0.dim, kind="int" if name == "int" else "float", deps=deps, pdeps=pdeps, born=t, sym=a0.sym,
-                   guardp=a0.guardp, const=a0.const if a0.is_number_const() else NOCONST)
+                   guardp=a0.guardp, const=a0.const if a0.is_number_const() else NOCONST,
+                   tags=frozenset(tg for tg in a0.tags if isinstance(tg, tuple) and tg[0] in ("getter", "ret")))
     if name in ("str", "repr"):
         return Val(dim=D0, kind="str", deps=deps, born=t, extra=("str", a0))
     if name == "getattr":
